@@ -136,6 +136,13 @@ class Check(PropertyCheck):
         v, k = self.inspect_outputs(enclib.boundary_plains(self.rng, 1, 16 if quick else 150), 1, True)
         out += v
         n += k
+        deep = enclib.deep_table_plains(quick)
+        v, k = self.inspect_outputs(deep, 9, False)      # first table 20 deep, RUNA unused with length 18/19
+        for x in v:
+            idx = [i for i, d in enumerate(deep) if len(d) == x.payload.get("input_len")]
+            x.payload["generator"] = "enclib.deep_table_plains(False)[%d]" % idx[0] if idx else None
+        out += v
+        n += k
         self.notes.append("process-level outputs inspected: %d" % n)
         return (getattr(self, "witness_violations", []) + out)[:3]
 
@@ -149,6 +156,10 @@ class Check(PropertyCheck):
         if "input_hex" not in p:
             print(json.dumps(p.get("broken"), indent=1)[:3000])
             return 1
-        v, n = self.inspect_outputs([bytes.fromhex(p["input_hex"])], p.get("level", 1), p.get("sequential", False))
+        data = bytes.fromhex(p["input_hex"])
+        m = re.match(r"enclib\.deep_table_plains\(False\)\[(\d+)\]$", p.get("generator") or "")
+        if m:
+            data = enclib.deep_table_plains(False)[int(m.group(1))]
+        v, n = self.inspect_outputs([data], p.get("level", 1), p.get("sequential", False))
         print([x.summary for x in v])
         return 1 if v else 0
